@@ -63,7 +63,10 @@ Record inner_ok (s s' : state) (k : Z) (x y : task) : Prop := {
            coord_done s' (k_t x) = true;
   io_status : k_phase y = k_phase x + 1 -> k_phase x <= 1 ->
               exists c', find_coord (k_t x) (coords s') = Some c' /\
-                         (c_status c' = Queued \/ c_status c' = Running)
+                         (c_status c' = Queued \/ c_status c' = Running);
+  io_annend : (k_st x = TAnn /\ k_st y = TAnnDone) \/ (k_phase x = 4 /\ k_phase y = 5) ->
+              exists t c, find_coord t (coords s) = Some c /\ ann_phase k (c_announcers c) = Some 5 /\
+                coords s' = upd_coord t (fun c0 => c_with_ann c0 (c_owing c0) (ann_del k (c_announcers c0))) (coords s)
 }.
 
 Record submit_ok (s : state) (a : actor) (k t : Z) (g : stage) (final : bool) (deps : list Z) (kind : Z) : Prop := {
@@ -196,7 +199,11 @@ Ltac io_auto :=
                 [ first [ match goal with H : k_st _ = _ |- _ => rewrite H in *; discriminate end
                         | cbn in *; congruence ]
                 | cbn in *; lia ] ]
-  | try solve [ intros ?Hx1 ?Hx2; cbn in *; lia ] ].
+  | try solve [ intros ?Hx1 ?Hx2; cbn in *; lia ]
+  | try solve [ intros [[?Hx ?Hx0]|[?Hx1 ?Hx2]];
+                [ first [ match goal with H : k_st _ = _ |- _ => rewrite H in *; discriminate end
+                        | cbn in *; congruence ]
+                | cbn in *; lia ] ] ].
 
 Lemma find_coord_upd_const t l c y :
   find_coord t l = Some c -> c_id y = t -> find_coord t (upd_coord t (fun _ => y) l) = Some y.
@@ -362,7 +369,8 @@ Proof.
         [exact Eft|intros z _; cbn; now apply find_task_some_id in Eft| | |reflexivity|same_st|reflexivity].
       * apply ts_status; [exact Hst|unfold KSubmission in *; lia|lia|destruct to_running; lia|].
         unfold coord_done. rewrite Efc. now destruct (is_done (c_status c)).
-      * io_auto; [intros [[Hx _]|[_ Hx]]; [congruence|destruct to_running; lia]|].
+      * io_auto; [intros [[Hx _]|[_ Hx]]; [congruence|destruct to_running; lia]|
+                  |intros [[Hx _]|[Hx1 Hx2]]; [congruence|split_ands; destruct to_running; lia]].
         intros _ _. cbn [coords set_tasks set_coords].
         injection Hf as <-. pose proof (find_coord_some_id _ _ _ Hfc) as Hcid.
         erewrite find_coord_upd_const; [|exact Hfc|cbn; exact Hcid]. eexists. split; [reflexivity|].
@@ -406,7 +414,7 @@ Proof.
   - (* EAnnEnd *)
     destruct (busy s a) eqn:Ebusy; [discriminate|].
     destruct (find_coord t (coords s)) eqn:Efc; [|discriminate].
-    destruct (ann_phase a (c_announcers c)) as [p|]; [|discriminate].
+    destruct (ann_phase a (c_announcers c)) as [p|] eqn:Eap; [|discriminate].
     destruct p as [|p|p]; try discriminate. destruct p as [p|p|]; try discriminate.
     destruct p as [p|p|]; try discriminate. destruct p; try discriminate.
     destruct (find_task a (tasks s)) eqn:Eft.
@@ -417,14 +425,14 @@ Proof.
         eapply ss_inner with (k := a) (x := t0) (f := fun _ => with_st t0 TAnnDone);
           [exact Eft|intros z _; cbn; now apply find_task_some_id in Eft| | |reflexivity|same_st|reflexivity].
         - now apply ts_ann_end.
-        - io_auto. }
+        - io_auto. intros _. exists t, c. auto. }
       destruct ((k_kind t0 =? KSubmission) && (k_phase t0 =? 4)) eqn:Eg.
       { sub_on_task H. injection Hf as <-. cbn [tasks set_coords] in *. rewrite Eft in Hft. injection Hft as <-.
         split_ands.
         eapply ss_inner with (k := a) (x := t0) (f := fun _ => with_phase t0 5);
           [exact Eft|intros z _; cbn; now apply find_task_some_id in Eft| | |reflexivity|same_st|reflexivity].
         - apply ts_sub_ann_end; unfold KSubmission in *; lia.
-        - io_auto. }
+        - io_auto. intros _. exists t, c. auto. }
       injection H as <-; other.
     + injection H as <-; other.
   - (* ETaskEnd *)
@@ -645,7 +653,7 @@ Proof. decide equality. Qed.
 Lemma inner_runs_in s s' k x y g :
   inner_ok s s' k x y -> k_stage y = k_stage x -> g <> SInline -> runs_in g y = runs_in g x.
 Proof.
-  intros [_ _ Hc _ _ _ _ _] Hs Hg. unfold runs_in. rewrite Hs.
+  intros [_ _ Hc _ _ _ _ _ _] Hs Hg. unfold runs_in. rewrite Hs.
   destruct Hc as [Hc|Hc].
   - rewrite Hc. rewrite stage_eqb_neq by congruence. reflexivity.
   - now rewrite !running_st_cls, Hc.
@@ -923,13 +931,17 @@ Record leave_ok (s s' : state) (k : Z) (x y : task) : Prop := {
            coord_done s' (k_t x) = true;
   lo_status : k_phase y = k_phase x + 1 -> k_phase x <= 1 ->
               exists c', find_coord (k_t x) (coords s') = Some c' /\
-                         (c_status c' = Queued \/ c_status c' = Running)
+                         (c_status c' = Queued \/ c_status c' = Running);
+  lo_annend : (k_st x = TAnn /\ k_st y = TAnnDone) \/ (k_phase x = 4 /\ k_phase y = 5) ->
+              exists t c, find_coord t (coords s) = Some c /\ ann_phase k (c_announcers c) = Some 5 /\
+                coords s' = upd_coord t (fun c0 => c_with_ann c0 (c_owing c0) (ann_del k (c_announcers c0))) (coords s)
 }.
 
 Lemma leave_ok_same_st s s' k x y : k_st y = k_st x -> k_phase y = k_phase x -> leave_ok s s' k x y.
 Proof.
   intros E E2. constructor; rewrite ?E, ?E2; intros; try congruence; try lia.
-  destruct H as [[H1 H2]|[H1 H2]]; [congruence|lia].
+  - destruct H as [[H1 H2]|[H1 H2]]; [congruence|lia].
+  - destruct H as [[H1 H2]|[H1 H2]]; [congruence|lia].
 Qed.
 
 Definition tasks_evolve (s s' : state) : Prop :=
@@ -967,7 +979,8 @@ Qed.
 
 Ltac lo_tac :=
   constructor; cbn [k_st k_phase with_st];
-  [ intros ?H1 ?H2 | intros ?H1 ?H2 | intros ?H1 ?H2 ?H3 | intros [[?H1 ?H2]|[?H1 ?H2]] | intros ?H1 ?H2 ];
+  [ intros ?H1 ?H2 | intros ?H1 ?H2 | intros ?H1 ?H2 ?H3 | intros [[?H1 ?H2]|[?H1 ?H2]] | intros ?H1 ?H2
+  | intros [[?H1 ?H2]|[?H1 ?H2]] ];
   try lia; try assumption; try contradiction; try congruence;
   try (match goal with Hst : k_st _ = _ |- _ => rewrite Hst in *; cbn in *; congruence end);
   try (match goal with Hst : if k_final ?x then _ else _ |- _ => destruct (k_final x); congruence end).
@@ -2427,6 +2440,7 @@ Inductive ann_change (s s' : state) (t : Z) (c c' : coord) : Prop :=
   | ac_sub : asub c' c -> ann_change s s' t c c'
   | ac_cancel a0 :
       c_owing c' = a0 :: c_owing c -> c_announcers c' = c_announcers c -> c_status c = NotStarted ->
+      is_done (c_status c') = true ->
       is_user a0 = true \/ in_callback s a0 t = true \/ acting_task s a0 t = true ->
       tasks s' = tasks s -> ann_change s s' t c c'
   | ac_owing a0 :
@@ -2463,9 +2477,10 @@ Ltac ac_fin H H0 H0' :=
   first
     [ injection H as <-;
       first [ rewrite H0 in H0'; injection H0' as <-; apply ac_sub, asub_refl
-            | match type of H0' with find_coord _ (coords ?s1) = _ =>
-                let E := fresh in assert (E : coords s1 = coords _) by coords_eq;
-                rewrite E, H0 in H0'; injection H0' as <-; apply ac_sub, asub_refl end ]
+            | match type of H0 with find_coord _ (coords ?s0) = _ =>
+              match type of H0' with find_coord _ (coords ?s1) = _ =>
+                let E := fresh in assert (E : coords s1 = coords s0) by coords_eq;
+                rewrite E, H0 in H0'; injection H0' as <-; apply ac_sub, asub_refl end end ]
     | match type of H with on_task _ _ _ = Some _ =>
         rewrite (on_task_coords _ _ _ _ H), H0 in H0'; injection H0' as <-; apply ac_sub, asub_refl end
     | match type of H with on_coord (bump_after_shutdown ?s) _ _ = Some _ =>
@@ -2482,11 +2497,107 @@ Lemma step_ann_change s e s' t c c' :
   ann_change s s' t c c'.
 Proof.
   intros H H0 H0'. destruct e; cbn [step] in H.
-  15: { admit. }
-  19: { admit. }
+  15: { (* ECancel *)
+    destruct (busy s a); [discriminate|].
+    destruct (is_user a || in_callback s a t0 || acting_task s a t0) eqn:Eal; [|discriminate].
+    pose proof (on_coord_tasks _ _ _ _ H) as Htasks.
+    destruct (on_coord_at _ _ _ _ _ _ _ H
+                ltac:(intros c1 y Hq; cbv beta in Hq; destr Hq; injection Hq as <-; reflexivity)
+                H0 H0') as [[_ ->]|[-> Hf]]; [apply ac_sub, asub_refl|].
+    cbv beta in Hf. destruct (is_done (c_status c)) eqn:Ed.
+    - injection Hf as <-. apply ac_sub, asub_refl.
+    - destruct (status_eqb (c_status c) NotStarted) eqn:En; injection Hf as <-.
+      + apply status_eqb_eq in En. apply ac_cancel with (a0 := a); try reflexivity; try assumption.
+        apply orb_prop in Eal as [Eal|Eal]; [|auto]. apply orb_prop in Eal as [Eal|Eal]; auto.
+      + apply ac_sub. asub_tac. }
+  19: { (* EAnnBegin *)
+    destruct (busy s a); [discriminate|].
+    destruct (find_coord t0 (coords s)) as [c0|] eqn:Ec0; [|discriminate].
+    destruct (ann_phase a (c_announcers c0)) eqn:Eap; [discriminate|].
+    destruct (mem_z a (c_owing c0)) eqn:Eow.
+    - destruct (on_coord_at _ _ _ _ _ _ _ H
+                ltac:(intros c1 y Hq; cbv beta in Hq; injection Hq as <-; reflexivity)
+                H0 H0') as [[_ ->]|[-> Hf]]; [apply ac_sub, asub_refl|].
+      cbv beta in Hf. injection Hf as <-. rewrite Ec0 in H0. injection H0 as <-.
+      apply ac_owing with (a0 := a); try reflexivity; assumption.
+    - destruct (find_task a (tasks s)) as [x|] eqn:Ex; [|discriminate].
+      destruct (k_t x =? t0) eqn:Et; cbn [negb] in H; [|discriminate].
+      destruct (k_kind x =? KSubmission) eqn:Ek.
+      + destruct (tst_eqb (k_st x) TMain && (k_phase x =? 4)) eqn:Eg; [|discriminate].
+        pose proof (on_coord_tasks _ _ _ _ H) as Htasks.
+        destruct (on_coord_at _ _ _ _ _ _ _ H
+                ltac:(intros c1 y Hq; cbv beta in Hq; injection Hq as <-; reflexivity)
+                H0 H0') as [[_ ->]|[-> Hf]]; [apply ac_sub, asub_refl|].
+        cbv beta in Hf. injection Hf as <-. rewrite Ec0 in H0. injection H0 as <-.
+        apply andb_prop in Eg as [Eg1 Eg2].
+        apply ac_begin with (a0 := a) (x := x); try reflexivity; try assumption; [lia|].
+        left. repeat split; [lia|now apply tst_eqb_true|lia|exact Htasks].
+      + destruct (tst_eqb (k_st x) TPost && k_final x) eqn:Eg; [|discriminate].
+        unfold bind in H. destruct (on_coord s t0 _) as [s1|] eqn:E1; [|discriminate].
+        pose proof (on_coord_tasks _ _ _ _ E1) as Htasks.
+        rewrite (on_task_coords _ _ _ _ H) in H0'.
+        destruct (on_coord_at _ _ _ _ _ _ _ E1
+                ltac:(intros c1 y Hq; cbv beta in Hq; injection Hq as <-; reflexivity)
+                H0 H0') as [[_ ->]|[-> Hf]]; [apply ac_sub, asub_refl|].
+        cbv beta in Hf. injection Hf as <-. rewrite Ec0 in H0. injection H0 as <-.
+        apply andb_prop in Eg as [Eg1 Eg2].
+        apply ac_begin with (a0 := a) (x := x); try reflexivity; try assumption; [lia|].
+        right. repeat split; [lia|exact Eg2|now apply tst_eqb_true|].
+        apply on_task_inv in H as (x1 & y1 & Hx1 & Hy1 & ->). rewrite Htasks, Ex in Hx1.
+        injection Hx1 as <-. injection Hy1 as <-. cbn [tasks set_tasks]. rewrite Htasks.
+        rewrite find_task_upd' by (intros z _; cbn; now apply find_task_some_id in Ex).
+        rewrite Z.eqb_refl, Ex. reflexivity. }
   1: { destr_to H. injection H as <-. cbn [coords set_coords] in H0'. rewrite find_coord_app, H0 in H0'.
        injection H0' as <-. apply ac_sub, asub_refl. }
-  25: { admit. }
-  all: destr_to H; try ac_fin H H0 H0'.
-  Show.
-Admitted.
+  25: { (* EAnnEnd *)
+    destruct (busy s a); [discriminate|].
+    destruct (find_coord t0 (coords s)) as [c0|] eqn:Ec0; [|discriminate].
+    assert (G : forall s2, coords s2 = upd_coord t0 (fun c1 => c_with_ann c1 (c_owing c1) (ann_del a (c_announcers c1))) (coords s) ->
+                find_coord t (coords s2) = Some c' -> ann_change s s2 t c c').
+    { intros s2 E2 H2. rewrite E2, find_coord_upd in H2 by reflexivity.
+      destruct (t =? t0); [|rewrite H0 in H2; injection H2 as <-; apply ac_sub, asub_refl].
+      rewrite H0 in H2. cbn in H2. injection H2 as <-. apply ac_sub. asub_tac. }
+    destr_to H;
+      first [ injection H as <-; apply G; [reflexivity|exact H0']
+            | apply G; [rewrite (on_task_coords _ _ _ _ H); reflexivity|exact H0'] ]. }
+  all: try (timeout 20 (destr_to H; ac_fin H H0 H0')).
+Qed.
+
+
+(** * Part 16 (C18): a task that owes or runs an announce is inside its main / its announce *)
+Definition member (a : actor) (c : coord) : Prop := In a (c_owing c) \/ is_ann a c.
+
+Definition live_sub (x : task) (c : coord) : Prop :=
+  k_kind x = KSubmission /\ k_st x = TMain /\
+  (k_phase x = 3 \/ k_phase x = 4 \/ (k_phase x = 0 /\ is_done (c_status c) = true)).
+Definition live_fin (x : task) : Prop :=
+  k_kind x <> KSubmission /\ k_final x = true /\ k_st x = TAnn.
+
+Lemma live_sub_step s s' k x x' c c' :
+  live_sub x c -> tstep s x x' -> leave_ok s s' k x x' ->
+  find_coord (k_t x) (coords s) = Some c ->
+  (is_done (c_status c) = true -> is_done (c_status c') = true) ->
+  live_sub x' c' \/ (k_phase x = 4 /\ k_phase x' = 5).
+Proof.
+  intros (Hk & Hst & Hp) Hts Hl Hc Hd.
+  assert (Hcd : is_done (c_status c) = true -> coord_done s (k_t x) = true)
+    by (intros E; unfold coord_done; now rewrite Hc).
+  unfold live_sub.
+  destruct Hts; cbn [k_kind k_st k_phase with_st with_flags with_phase with_assoc with_permit with_released];
+    try congruence;
+    try (left; repeat split; try assumption; destruct Hp as [Hp|[Hp|[Hp Hp2]]]; auto; fail).
+  all: try solve [left; repeat split; auto].
+  all: try solve [right; split; [assumption|reflexivity]].
+  - exfalso. destruct (H1 Hk); destruct Hp as [Hp|[Hp|[Hp _]]]; lia.
+  - exfalso. destruct Hp as [Hp|[Hp|[Hp Hp2]]]; try lia. rewrite (Hcd Hp2) in H3. discriminate.
+  - exfalso. destruct (k_final x); congruence.
+Qed.
+
+Lemma live_fin_step s x x' :
+  live_fin x -> tstep s x x' -> live_fin x' \/ k_st x' = TAnnDone.
+Proof.
+  intros (Hk & Hf & Hst) Hts. unfold live_fin.
+  destruct Hts; cbn [k_kind k_st k_final k_phase with_st with_flags with_phase with_assoc with_permit with_released];
+    try congruence; try (left; repeat split; assumption); try (right; reflexivity).
+  exfalso. destruct (k_final x); congruence.
+Qed.
